@@ -757,7 +757,11 @@ MessageReceivedFromGateway(const MessageRef & msgRef, void * userData)
                if (copyField) (void) msg.CopyName(fn, _parameters);
             }
             if (updateDefaultMessageRoute) UpdateDefaultMessageRoute();
-            if (getMsg.HasName(PR_NAME_KEYS)) DoGetData(getMsg);  // return any data that matches the subscription
+            if (getMsg.HasName(PR_NAME_KEYS))
+            {
+               PushSubscriptionMessages();  // any node-removed notices a filter-change above has queued up must go out before the results below, not after them
+               DoGetData(getMsg);  // return any data that matches the subscription
+            }
          }
          break;
 
